@@ -715,4 +715,4 @@ REFERENCE_PARSING = [_shared(_c09.ParsePrint(), 'C11'), _shared(_c09.Classify(),
 TARGETS = REFERENCE_PARSING + [ValidateReferences(), DuplicateIdentifiers(), TryReportErrors(), InitializeFunnel(), CycleCheck(),
            PropagateReplicateCycles(), ConcreteValidate(), ValidateComponent(), ValidateDocument()]
 LEMMAS = []
-BOUNDED = [SchemaRejectsBounded()]
+BOUNDED = [SchemaRejectsBounded(), _c09.DiscoverReferencesBounded()]
